@@ -99,7 +99,8 @@ pub fn drive_klippa(spec: &Value) -> CaseOut {
 pub fn gen_klippa_cases(max_size: usize, max_bytes: usize, rich: bool) -> Vec<Value> {
     let mut out = vec![];
     for (name, data) in fontcase::corpus().iter() {
-        if !klipdrv::seed_filter(data, max_size) {
+        // AdobeBlank maps all of Unicode: the "everything" request alone costs seconds per subset run
+        if !klipdrv::seed_filter(data, max_size) || HEAVY_SEEDS.contains(&name.as_str()) {
             continue;
         }
         let mk = |devs: Vec<fontcase::Dev>| json!({"driver": "klippa", "font": fontcase::FontCase { seed: name.clone(), devs }.to_json()});
@@ -440,7 +441,7 @@ pub fn phases(quick: bool) -> Result<Vec<Phase>, String> {
         )],
     ));
     // 2c. klippa subsetter (observations in C02, judged by C20)
-    let (ksize, kbytes) = if quick { (16 << 10, 32) } else { (1 << 20, 256) };
+    let (ksize, kbytes) = if quick { (16 << 10, 32) } else { (64 << 10, 128) };
     let kl = gen_klippa_cases(ksize, kbytes, !quick);
     out.push(vec_phase(
         "klippa",
@@ -449,7 +450,7 @@ pub fn phases(quick: bool) -> Result<Vec<Phase>, String> {
         7,
         vec![(
             "klippa".into(),
-            json!({"seeds": format!("glyf-flavoured corpus fonts <= {ksize} bytes"), "tables": klipdrv::TABLE_KINDS,
+            json!({"seeds": format!("glyf-flavoured corpus fonts <= {ksize} bytes, without {HEAVY_SEEDS:?}"), "tables": klipdrv::TABLE_KINDS,
                 "deviated_bytes_per_table": kbytes, "requests": klipdrv::REQUESTS,
                 "flag_sets": klipdrv::FLAG_SETS.iter().map(|f| f.0).collect::<Vec<_>>(),
                 "judged": "no (outside C02's statement; C20 judges arithmetic panics)"}),
